@@ -22,13 +22,14 @@ RULE = ('Archives of 0..5 members (duplicate names, sizes 0..200 odd and even, c
         'with/without final newline, maximal-width header fields, GNU "name/" and bare name styles) x interleaved '
         'histories of <= 40 calls of read()/read(n)/readline()/readline(n)/readlines()/seek(p,0|1|2)/tell() across members, '
         'in fileobj= mode (BytesIO, TemporaryFile, os.fdopen, a real file whose path was unlinked / given to another archive after '
-        'opening) and filename= mode; object lifetimes around the history: the ArFile object dropped (and collected) before the '
+        'opening; in 15% of these the archive sits behind a preamble of 1..65537 bytes and the object is handed over positioned at the global header) and filename= mode; object lifetimes around the history: the ArFile object dropped (and collected) before the '
         'members are read, members close()d or merely dropped afterwards, one path per process rewritten with each next archive, '
         'a second ArFile on the same path whose members are read alternately with the first.  Non-trivial: >= 2 members, history touches >= 2 of them and contains a readline* '
         'or a seek followed by a read.')
 ASSUMPTIONS = ['only the compared interface of the statement: read(n>=1)/read(), readline(n>=1)/readline(), readlines(), seek with '
                'non-negative targets, tell(); readline(0) (nothing) and readline(-1) (a whole line) as for any file; read(0) (documented "all"), readlines(hint), seek return values, __iter__ excluded',
                'short member names only (<= 15 bytes, no "/" inside); archives are well-formed (odd members padded)',
+               'a file object handed to ArFile(fileobj=) is read from its current position (judgement call, DESIGN 6.5 round 11)',
                'member names are packed as UTF-8 bytes; the str a listing shows is those bytes decoded with the file-system encoding and '
                'surrogateescape (the documented default of ArFile), whatever the locale of the process is']
 ANCHORS = ['debian.arfile:ArFile.__collect_members', 'debian.arfile:ArMember.from_file', 'debian.arfile:ArMember.read',
